@@ -276,6 +276,18 @@ def run_property(pid, tier, seed):
             if still:
                 known_hits.append(k)
 
+    # ---------------- engine self-test: the executor must reproduce CPython's outcome on concrete calls of the leaf
+    # functions of this property (differential test of the encoding of Python semantics, vf/selftest.py)
+    selftest_res = None
+    if all_targets and os.environ.get('VERIF_NO_SELFTEST') != '1':
+        from . import selftest
+        st_targets = set(all_targets) & set(selftest.SAMPLERS)
+        if st_targets:
+            selftest_res = selftest.run(targets=st_targets, samples=3 if tier == 'quick' else 15, seed=seed)
+            if selftest_res['mismatches']:
+                print('CHECKER-ERROR property=%s engine disagrees with CPython on concrete calls: %r'
+                      % (pid, selftest_res['mismatches'][:3]))
+                checker_error = True
     # ---------------- thorough tier: canary edits (guards against an unsound or vacuous checker)
     canary = None
     if tier == 'thorough' and all_targets:
@@ -326,6 +338,8 @@ def run_property(pid, tier, seed):
                                  'solver_gave_no_model': sum(1 for sts in vac.values() if 'refuted' not in sts
                                                              and not all(st == 'proved' for st in sts)),
                                  'contradictory': vacuous}
+    if selftest_res is not None:
+        cov['engine_selftest_vs_cpython'] = selftest_res
     if canary is not None:
         cov['canary_mutants_killed'] = len(canary['killed'])
         cov['canary_mutants'] = canary
@@ -417,12 +431,20 @@ def main(argv=None):
     ap.add_argument('--ledger', action='store_true')
     ap.add_argument('--only', nargs='*')
     ap.add_argument('--canaries', action='store_true')
+    ap.add_argument('--selftest', action='store_true')
     a = ap.parse_args(argv)
     seed = int(os.environ.get('VERIF_SEED', '0') or 0)
     try:
         if a.ledger:
             update_ledger(a.only)
             return 0
+        if a.selftest:
+            from . import selftest
+            r = selftest.run(samples=25, seed=seed, verbose=True)
+            print({k: v for k, v in r.items() if k != 'mismatches'})
+            for m in r['mismatches']:
+                print('ENGINE-MISMATCH', m)
+            return 3 if r['mismatches'] else 0
         if a.canaries:
             from . import canaries
             r = canaries.run(props=[a.prop] if a.prop else None)
